@@ -155,8 +155,8 @@ def dur_text(comps, rational=False):
             return "%d/1" % n
         return comp_text(comps[0])
     if rational:
-        num, den, _ = dur_fold(comps)
-        if den == 1:
+        num, den, bounded = dur_fold(comps)
+        if den == 1 and not bounded:  # a bounded sum gets another denominator and keeps its components
             return "%d/1" % num
     return "+".join(comp_text(c) for c in comps)
 
@@ -352,30 +352,54 @@ ID_HEAD = "abcdefghijklmnopqrstuvwxyzABCDEFGHIJKLMNOPQRSTUVWXYZ"
 ID_TAIL = ID_HEAD + "0123456789_"
 
 
-@st.composite
-def ident(draw):
-    """Identifiers without separators: n12, 17, P01_n3, n5-1 (suffix of unfolded repeats)."""
-    k = draw(st.integers(0, 9))
-    if k <= 3:
-        s = "n%d" % draw(st.integers(0, 9999))
-    elif k <= 5:
-        s = "%d" % draw(st.integers(0, 99999))
+# The frequently used pieces are decoded from ONE Hypothesis integer each (mixed-radix digits):
+# a draw costs ~0.1 ms, a score note would need ~40 of them otherwise. 0 decodes to the simplest value.
+def _ident_from(k):
+    k, form = divmod(k, 10)
+    k, suf = divmod(k, 6)
+    if form <= 3:
+        k, num = divmod(k, 10000)
+        s = "n%d" % num
+    elif form <= 5:
+        k, num = divmod(k, 100000)
+        s = "%d" % num
     else:
-        s = draw(st.sampled_from(ID_HEAD)) + draw(st.text(ID_TAIL, max_size=7))
-    if draw(st.integers(0, 5)) == 0:
-        s += "-%d" % draw(st.integers(1, 20))
+        k, h = divmod(k, len(ID_HEAD))
+        s = ID_HEAD[h]
+        k, ln = divmod(k, 8)
+        for _ in range(ln):
+            k, c = divmod(k, len(ID_TAIL))
+            s += ID_TAIL[c]
+    if suf == 5:
+        k, n = divmod(k, 20)
+        s += "-%d" % (n + 1)
     return s
+
+
+def ident():
+    """Identifiers without separators: n12, 17, P01_n3, n5-1 (suffix of unfolded repeats)."""
+    return st.integers(0, 10 * 6 * 52 * 8 * 63 ** 7 * 20).map(_ident_from)
 
 
 ATTR_TOKENS = ["s", "stacc", "arp", "grace", "fermata", "leftOutTied", "voice_overlap", "trill", "diff_score_version",
                "v1", "v2", "v13", "staff1", "staff2", "1", "2", "5", "mord", "fingering3", "acc", "ped on"]
+TOKEN_CHARS = "abcdefghijklmnopqrstuvwxyzABCDEFGHIJKLMNOPQRSTUVWXYZ0123456789_ "
+
+
+def _token_from(k):
+    k, form = divmod(k, 3)
+    if form < 2:
+        return ATTR_TOKENS[k % len(ATTR_TOKENS)]
+    k, ln = divmod(k, 8)
+    s = ""
+    for _ in range(ln + 1):
+        k, c = divmod(k, len(TOKEN_CHARS))
+        s += TOKEN_CHARS[c]
+    return s.strip() or "x"
 
 
 def attr_token():
-    return st.one_of(
-        st.sampled_from(ATTR_TOKENS),
-        st.text("abcdefghijklmnopqrstuvwxyzABCDEFGHIJKLMNOPQRSTUVWXYZ0123456789_ ", min_size=1, max_size=8).map(lambda s: s.strip()).filter(bool),
-    )
+    return st.integers(0, 3 * 8 * 64 ** 8).map(_token_from)
 
 
 def attr_list(min_size=0, max_size=5):
@@ -386,63 +410,131 @@ DENS = [1, 2, 4, 8, 16, 32, 64, 128, 3, 6, 12, 24, 48, 5, 10, 20, 7, 9]
 TUPS = [3, 5, 6, 7, 2, 9, 12]
 
 
-@st.composite
-def component(draw, allow_zero=True, musical=True):
-    d = draw(st.sampled_from(DENS)) if musical or draw(st.booleans()) else draw(st.integers(1, 1024))
-    n = draw(st.integers(0 if allow_zero else 1, 12)) if draw(st.integers(0, 5)) else draw(st.integers(0 if allow_zero else 1, 1024))
-    t = draw(st.sampled_from(TUPS)) if draw(st.integers(0, 3)) == 0 else None
-    return [n, d, t]
+def _comp_from(k, allow_zero=True, musical=True):
+    k, dsel = divmod(k, 2)
+    if musical or dsel:
+        k, i = divmod(k, len(DENS))
+        d = DENS[i]
+    else:
+        k, d = divmod(k, 1024)
+        d += 1
+    lo = 0 if allow_zero else 1
+    k, nsel = divmod(k, 6)
+    if nsel != 5:
+        k, n = divmod(k, 13 - lo)
+    else:
+        k, n = divmod(k, 1025 - lo)
+    n += lo
+    k, tsel = divmod(k, 4)
+    t = None
+    if tsel == 3:
+        k, i = divmod(k, len(TUPS))
+        t = TUPS[i]
+    return k, [n, d, t]
 
 
-@st.composite
-def duration(draw, zero_ok=True):
-    k = draw(st.integers(0, 9))
-    if k == 0 and zero_ok:
+COMP_RANGE = 2 * 1024 * 6 * 1025 * 4 * 7
+
+
+def component(allow_zero=True, musical=True):
+    return st.integers(0, COMP_RANGE).map(lambda k: _comp_from(k, allow_zero, musical)[1])
+
+
+def _dur_from(k, zero_ok=True):
+    k, form = divmod(k, 10)
+    if form == 0 and zero_ok:
         return [[0, 1, None]]
-    if k <= 6:
-        return [draw(component(allow_zero=zero_ok))]
-    n = draw(st.integers(2, 4 if k == 9 else 2))
-    return [draw(component(allow_zero=False)) for _ in range(n)]
+    if form <= 6:
+        return [_comp_from(k, zero_ok, True)[1]]
+    n = 2
+    if form == 9:
+        k, extra = divmod(k, 3)
+        n += extra
+    comps = []
+    for _ in range(n):
+        k, c = _comp_from(k, False, True)
+        comps.append(c)
+    return comps
 
 
-def grid_float(decimals, lo=-40000, hi=4000000):
+def duration(zero_ok=True):
+    return st.integers(0, 30 * COMP_RANGE ** 4).map(lambda k: _dur_from(k, zero_ok))
+
+
+OFFGRID_FIXED = [-0.1, 0.1, -0.49]  # in units of the last written decimal
+OFFGRID_ABS = [1.0 / 3, 2.0 / 3, -1.0 / 3, 1e-7, 0.1 + 0.2]
+FREE_FIXED = [0.0, 1e-5, 1e-7, 123456789.125, 0.1 + 0.2]
+
+
+def _uniform(k, lo, hi):
+    return lo + (k % 2 ** 53) / float(2 ** 53) * (hi - lo)
+
+
+def _signed(j, pos):
+    """0..pos -> 0..pos, pos+1.. -> -1, -2, ..."""
+    return j if j <= pos else pos - j
+
+
+def _grid_from(k, decimals):
+    scale = float(10 ** decimals)
+    k, form = divmod(k, 3)
+    if form == 0:
+        return _signed(k % 4040001, 4000000) / scale
+    if form == 1:
+        return float(_signed(k % 809, 800))
+    return _signed(k % 1617, 1600) / 4.0
+
+
+def _offgrid_from(k, decimals):
+    scale = float(10 ** decimals)
+    k, form = divmod(k, 3)
+    if form == 0:
+        return (_signed(k % 404001, 400000) + 0.5) / scale
+    if form == 1:
+        j = k % (len(OFFGRID_FIXED) + len(OFFGRID_ABS))
+        return OFFGRID_FIXED[j] / scale if j < len(OFFGRID_FIXED) else OFFGRID_ABS[j - len(OFFGRID_FIXED)]
+    return _uniform(k, -100.0, 1000.0)
+
+
+def _free_from(k):
+    k, form = divmod(k, 4)
+    if form == 0:
+        return _signed(k % 6465, 6400) / 8.0
+    if form == 1:
+        return _signed(k % 30301, 30000) / 3.0
+    if form == 2:
+        return FREE_FIXED[k % len(FREE_FIXED)]
+    return _uniform(k, -1e4, 1e6)
+
+
+def _time_from(k, decimals):
+    if decimals is None:
+        return _free_from(k)
+    k, off = divmod(k, 8)
+    return _offgrid_from(k, decimals) if off == 7 else _grid_from(k, decimals)
+
+
+FLOAT_RANGE = 2 ** 60
+
+
+def grid_float(decimals):
     """Values written exactly with ``decimals`` decimals."""
-    scale = 10 ** decimals
-    return st.one_of(
-        st.integers(lo, hi).map(lambda k: k / float(scale)),
-        st.integers(-8, 800).map(float),
-        st.integers(-16, 1600).map(lambda k: k / 4.0),
-    )
+    return st.integers(0, FLOAT_RANGE).map(lambda k: _grid_from(k, decimals))
 
 
 def offgrid_float(decimals):
     """Values the format cannot write exactly, including rounding boundaries."""
-    scale = 10 ** decimals
-    return st.one_of(
-        st.integers(-4000, 400000).map(lambda k: (k + 0.5) / scale),
-        st.sampled_from([-0.1 / scale, 0.1 / scale, -0.49 / scale, 1.0 / 3, 2.0 / 3, -1.0 / 3, 1e-7, 0.1 + 0.2]),
-        st.floats(-100, 1000, allow_nan=False, allow_infinity=False),
-    )
+    return st.integers(0, FLOAT_RANGE).map(lambda k: _offgrid_from(k, decimals))
 
 
 def free_float():
     """Any finite value for the unconstrained (repr) formats."""
-    return st.one_of(
-        st.floats(-1e4, 1e6, allow_nan=False, allow_infinity=False),
-        st.integers(-64, 6400).map(lambda k: k / 8.0),
-        st.integers(-300, 30000).map(lambda k: k / 3.0),
-        st.sampled_from([0.0, 1e-5, 1e-7, 123456789.125, 0.1 + 0.2]),
-    )
+    return st.integers(0, FLOAT_RANGE).map(_free_from)
 
 
-@st.composite
-def time_float(draw, decimals):
-    """decimals None = unconstrained format."""
-    if decimals is None:
-        return draw(free_float())
-    if draw(st.integers(0, 7)) == 0:
-        return draw(offgrid_float(decimals))
-    return draw(grid_float(decimals))
+def time_float(decimals):
+    """decimals None = unconstrained format; otherwise 7 of 8 values are exactly writable."""
+    return st.integers(0, FLOAT_RANGE).map(lambda k: _time_from(k, decimals))
 
 
 def snote_decimals(v):
@@ -450,22 +542,37 @@ def snote_decimals(v):
     return 4 if v == V100 else (None if v >= V030 else 5)
 
 
+ALTERS = [0, 0, 0, 1, -1, 2, -2]
+
+
+def _pitch_from(k, rests=True):
+    """(step, alter, octave); one of eight is a rest when allowed."""
+    k, r = divmod(k, 8)
+    if rests and r == 7:
+        return "R", None, None
+    k, s = divmod(k, 7)
+    k, a = divmod(k, len(ALTERS))
+    k, wide = divmod(k, 2)
+    octave = (k % 11) - 1 if wide else k % 9
+    return "CDEFGAB"[s], ALTERS[a], octave
+
+
 @st.composite
 def snote(draw, v):
-    rest = draw(st.integers(0, 7)) == 0
     dec = snote_decimals(v)
-    if rest:
-        step, alter, octave = "R", None, None
-    else:
-        step = draw(st.sampled_from("CDEFGAB"))
-        alter = draw(st.sampled_from([0, 0, 0, 1, -1, 2, -2]))
-        octave = draw(st.one_of(st.integers(0, 8), st.integers(-1, 9)))
-    measure = draw(st.one_of(st.integers(0, 300), st.integers(0, 3)))
+    step, alter, octave = _pitch_from(draw(st.integers(0, 8 * 7 * 7 * 2 * 11)), rests=True)
+    k = draw(st.integers(0, 2 * 301 * 12 * 4 * 6))
+    k, small = divmod(k, 2)
+    k, measure = divmod(k, 301)
+    if small:
+        measure %= 4
+    k, beat = divmod(k, 12)
+    k, indep = divmod(k, 4)
     onset = draw(time_float(dec))
-    if draw(st.integers(0, 3)) == 0:
+    if indep == 3:
         end = draw(time_float(dec))
     else:
-        end = onset + draw(st.sampled_from([0.0, 0.25, 0.5, 1.0, 2.0, 4.0]))
+        end = onset + [0.0, 0.25, 0.5, 1.0, 2.0, 4.0][k % 6]
         if dec is not None and on_grid(onset, dec):
             end = float(ffix(end, dec))  # stay on the format's grid
     return {
@@ -474,7 +581,7 @@ def snote(draw, v):
         "alter": alter,
         "octave": octave,
         "measure": measure,
-        "beat": draw(st.integers(1, 12)),
+        "beat": beat + 1,
         "offset": draw(duration()),
         "duration": draw(duration()),
         "onset": onset,
@@ -486,25 +593,38 @@ def snote(draw, v):
 @st.composite
 def pnote(draw, v):
     v = tuple(v)
-    on = draw(st.one_of(st.integers(0, 2000000), st.integers(0, 3000)))
-    dur = draw(st.one_of(st.integers(0, 5000), st.integers(0, 400000)))
-    vel = draw(st.integers(0, 127))
+    k = draw(st.integers(0, 2 * 2000001 * 2 * 400001))
+    k, small = divmod(k, 2)
+    k, on = divmod(k, 2000001)
+    if small:
+        on %= 3001
+    k, short = divmod(k, 2)
+    dur = k % 400001
+    if short:
+        dur %= 5001
+    k = draw(st.integers(0, 128 * 128 * 17 * 21 * 5 * 6))
+    k, vel = divmod(k, 128)
     if v == V100:
-        return {"id": draw(ident()), "pitch": draw(st.integers(0, 127)), "onset": on, "offset": on + dur,
-                "velocity": vel, "channel": draw(st.integers(0, 16)), "track": draw(st.integers(0, 20))}
-    n = {"id": draw(ident()), "step": draw(st.sampled_from("CDEFGAB")), "alter": draw(st.sampled_from([0, 0, 0, 1, -1, 2, -2])),
-         "octave": draw(st.integers(0, 8)), "velocity": vel}
+        k, pitch = divmod(k, 128)
+        k, ch = divmod(k, 17)
+        k, tr = divmod(k, 21)
+        return {"id": draw(ident()), "pitch": pitch, "onset": on, "offset": on + dur, "velocity": vel, "channel": ch, "track": tr}
+    step, alter, octave = _pitch_from(draw(st.integers(0, 8 * 7 * 7 * 2 * 11)), rests=False)
+    n = {"id": draw(ident()), "step": step, "alter": alter, "octave": max(octave, 0) if octave < 9 else 8, "velocity": vel}
     if v < V030:
-        if draw(st.integers(0, 5)) == 0:
+        k, _ = divmod(k, 128 * 17 * 21)
+        k, adj = divmod(k, 5)
+        if k % 6 == 5:
             n["onset"] = draw(offgrid_float(2))
-            n["offset"] = n["onset"] + draw(st.floats(0, 100, allow_nan=False))
+            n["offset"] = n["onset"] + draw(st.integers(0, 2 ** 53).map(lambda j: _uniform(j, 0.0, 100.0)))
         else:
-            n["onset"] = draw(st.integers(0, 20000000).map(lambda k: k / 100.0))
-            n["offset"] = draw(st.integers(0, 20000000).map(lambda k: k / 100.0))
+            n["onset"] = draw(st.integers(0, 20000000)) / 100.0
+            n["offset"] = draw(st.integers(0, 20000000)) / 100.0
     else:
+        k, _ = divmod(k, 128 * 17 * 21)
         n["onset"] = on
         n["offset"] = on + dur
-        n["adj_offset"] = on + dur + draw(st.sampled_from([0, 0, 1, 37, 4000]))
+        n["adj_offset"] = on + dur + [0, 0, 1, 37, 4000][k % 5]
     return n
 
 
